@@ -297,11 +297,20 @@ def cfg_expected(req):
     return " ".join("%s=%s" % (k, f[k]) for k in ("ns", "bind", "lt", "qt", "st", "rd", "buf", "edns", "has"))
 
 
+RFC1035_TYPES = {"A": 1, "NS": 2, "MD": 3, "MF": 4, "CNAME": 5, "SOA": 6, "MB": 7, "MG": 8, "MR": 9, "NULL": 10, "WKS": 11,
+                 "PTR": 12, "HINFO": 13, "MINFO": 14, "MX": 15, "TXT": 16, "AAAA": 28}
+
+
 def cfg_oracle(req, ans):
     c = crash_oracle(req, ans)
     if c:
         return c
     if ans == "bad-request":
+        return None
+    if req.startswith("rtype "):
+        want = RFC1035_TYPES.get(req.split(" ")[1])
+        if want is not None and ans != "ok %d" % want:
+            return "a typed query for %s asks for (and filters by) TYPE %s, RFC 1035 / 3596 say %d" % (req.split(" ")[1], ans[3:], want)
         return None
     exp = cfg_expected(req)
     if ans != exp:
@@ -870,10 +879,10 @@ STREAMS.update({
         outcome_key=lambda req, ans: req.split(" ")[0] + ":" + ans.split(" ")[0] + ":" + (ans.split(" ")[1] if " " in ans else ""),
     ),
     "cfg": dict(
-        kinds=["cfg"], quick=20000, thorough=400000,
+        kinds=["cfg", "rtype"], quick=20000, thorough=400000,
         canon=ident, proj=lambda req, ans: ans, impl_oracle=cfg_oracle,
-        nontrivial=lambda req, ans: len(req.split(" ")) >= 4,
-        outcome_key=lambda req, ans: "ctor=%s calls=%s st=%s" % (req.split(" ")[1].split(":")[0], min(len(req.split(" ")) - 2, 6),
+        nontrivial=lambda req, ans: len(req.split(" ")) >= 4 or req.startswith("rtype"),
+        outcome_key=lambda req, ans: "rtype" if req.startswith("rtype") else "ctor=%s calls=%s st=%s" % (req.split(" ")[1].split(":")[0], min(len(req.split(" ")) - 2, 6),
                                                            (re.search(r"st=(\d)", ans) or [None, "?"])[1]),
     ),
     "query": dict(
